@@ -272,6 +272,7 @@ func check(prop, tier string, writeLock bool, filter string) int {
 		}
 		return violation("contract-resolution", err.Error())
 	}
+	g.recordedLocals = loadLocals(prop)
 	loadS := time.Since(t0).Seconds()
 	if os.Getenv("GOVC_DEBUGKEYS") != "" {
 		for k := range g.contracts {
@@ -450,6 +451,13 @@ func check(prop, tier string, writeLock bool, filter string) int {
 		_ = os.MkdirAll(filepath.Dir(lockPath), 0o755)
 		_ = os.WriteFile(lockPath, []byte(strings.Join(lines, "\n")+"\n"), 0o644)
 		fmt.Printf("wrote %s (%d clauses for %d obligations)\n", lockPath, len(lines), len(names))
+		var fns []*ssa.Function
+		for _, fc := range g.allFC {
+			if hasProp(fc.Props, prop) && g.fnOf[fc] != nil {
+				fns = append(fns, g.fnOf[fc])
+			}
+		}
+		writeLocals(prop, fns)
 	}
 
 	nViol := 0
